@@ -1428,7 +1428,22 @@ func runWSSKeep(c *Ctx, r *Reporter) {
 				}
 				found = true
 				var seq []string
-				for _, st := range cc.Body {
+				body := cc.Body
+				// the case may hand the node to a helper of its own: `case *BinaryExpression: f.formatBinaryExpression(n)`
+				if len(body) == 1 {
+					if es, ok := body[0].(*ast.ExprStmt); ok {
+						if call, ok := es.X.(*ast.CallExpr); ok {
+							if cf := calleeFunc(pkg.TypesInfo, call); cf != nil && cf.Name() != "format" {
+								for _, d2 := range Funcs(pkg) {
+									if d2.Obj == cf && d2.Decl.Body != nil {
+										body = d2.Decl.Body.List
+									}
+								}
+							}
+						}
+					}
+				}
+				for _, st := range body {
 					ast.Inspect(st, func(n ast.Node) bool {
 						call, ok := n.(*ast.CallExpr)
 						if !ok {
@@ -2249,6 +2264,31 @@ func runBlankBefore(c *Ctx, r *Reporter) {
 		}
 		return true
 	})
+	// … or a counting loop `for i := 0; …` with cur := accums[i]
+	if rangeKey == nil {
+		ast.Inspect(fd.Decl.Body, func(n ast.Node) bool {
+			if fs, ok := n.(*ast.ForStmt); ok && rangeKey == nil && fs.Init != nil {
+				if as, ok := fs.Init.(*ast.AssignStmt); ok && len(as.Lhs) == 1 {
+					if id, ok := as.Lhs[0].(*ast.Ident); ok {
+						rangeKey = info.ObjectOf(id)
+						count[rangeKey] = 99 // the loop counter is not a single-assignment local
+					}
+				}
+			}
+			return true
+		})
+	}
+	isCurAccum := func(e ast.Expr) bool { // the range value, or accums[i]
+		if id, ok := ast.Unparen(e).(*ast.Ident); ok && rangeVal != nil && info.ObjectOf(id) == rangeVal {
+			return true
+		}
+		ix, ok := resolve(e, 0).(*ast.IndexExpr)
+		if !ok || rangeKey == nil {
+			return false
+		}
+		id, ok := ast.Unparen(ix.Index).(*ast.Ident)
+		return ok && info.ObjectOf(id) == rangeKey
+	}
 	isNextAccum := func(e ast.Expr) bool { // accums[i+1]
 		ix, ok := resolve(e, 0).(*ast.IndexExpr)
 		if !ok {
@@ -2284,7 +2324,7 @@ func runBlankBefore(c *Ctx, r *Reporter) {
 				}
 			}
 			if sel, ok := key.(*ast.SelectorExpr); ok && sel.Sel.Name == "idx" {
-				if id, ok := ast.Unparen(sel.X).(*ast.Ident); ok && info.ObjectOf(id) == rangeVal {
+				if isCurAccum(sel.X) {
 					// needs the conjunct accum.stmtType == "func" among the conditions of the enclosing case
 					for _, cnd := range conds {
 						var conj func(e ast.Expr)
@@ -2297,11 +2337,9 @@ func runBlankBefore(c *Ctx, r *Reporter) {
 									return
 								}
 								if be.Op == token.EQL {
-									if s2, ok := ast.Unparen(be.X).(*ast.SelectorExpr); ok && s2.Sel.Name == "stmtType" {
-										if id2, ok := ast.Unparen(s2.X).(*ast.Ident); ok && info.ObjectOf(id2) == rangeVal {
-											if sv, ok := constString(info, be.Y); ok && sv == "func" {
-												good = true
-											}
+									if s2, ok := ast.Unparen(be.X).(*ast.SelectorExpr); ok && s2.Sel.Name == "stmtType" && isCurAccum(s2.X) {
+										if sv, ok := constString(info, be.Y); ok && sv == "func" {
+											good = true
 										}
 									}
 								}
